@@ -2,8 +2,8 @@ package props
 
 import (
 	"context"
-	"net"
 	"crypto/tls"
+	"net"
 	"testing"
 	"time"
 
